@@ -127,6 +127,18 @@ pub struct Known {
     pub what: String,
 }
 
+/// A known finding that covers a listed set of cases (one canonical case per line of a
+/// committed file); a violation outside the list is still reported.
+#[derive(Clone, Debug)]
+pub struct KnownSet {
+    pub file: String,
+    pub what: String,
+    pub cases: HashSet<String>,
+}
+
+/// After this many violations no new chunks are started.
+pub const EARLY_STOP_VIOLATIONS: u64 = 500;
+
 pub struct Ctx {
     pub prop: &'static str,
     pub tier: Tier,
@@ -137,6 +149,8 @@ pub struct Ctx {
     pub case_budget: Duration,
     pub verif_dir: String,
     known: Vec<Known>,
+    known_sets: Vec<KnownSet>,
+    known_set_hits: Vec<AtomicU64>,
     violations: Mutex<Vec<Violation>>,
     viol_count: AtomicU64,
     known_hits: Mutex<BTreeMap<String, u64>>,
@@ -144,6 +158,7 @@ pub struct Ctx {
     samples: Mutex<Vec<Value>>,
     slots: Vec<Slot>,
     capped: AtomicBool,
+    stopped_early: AtomicBool,
     done: AtomicBool,
     evaluations: AtomicU64,
 }
@@ -180,9 +195,15 @@ impl Ctx {
             .ok()
             .and_then(|s| s.parse().ok())
             .unwrap_or_else(|| std::thread::available_parallelism().map(|n| n.get()).unwrap_or(8));
-        let wall_cap = std::env::var("VERIF_WALL_CAP_S").ok().and_then(|s| s.parse::<u64>().ok()).map(Duration::from_secs);
+        // wall cap: an engine-internal limit; a capped run reports what it completed and says so
+        let default_cap = match tier {
+            Tier::Quick => 1200,
+            Tier::Thorough => 6 * 3600,
+        };
+        let wall_cap = Some(Duration::from_secs(std::env::var("VERIF_WALL_CAP_S").ok().and_then(|s| s.parse::<u64>().ok()).unwrap_or(default_cap)));
         let verif_dir = std::env::var("VERIF_DIR").unwrap_or_else(|_| "/verif".to_string());
-        let known = load_known(&verif_dir, prop);
+        let (known, known_sets) = load_known(&verif_dir, prop);
+        let known_set_hits = known_sets.iter().map(|_| AtomicU64::new(0)).collect();
         Ctx {
             prop,
             tier,
@@ -193,6 +214,8 @@ impl Ctx {
             case_budget: Duration::from_secs(20),
             verif_dir,
             known,
+            known_sets,
+            known_set_hits,
             violations: Mutex::new(Vec::new()),
             viol_count: AtomicU64::new(0),
             known_hits: Mutex::new(BTreeMap::new()),
@@ -202,6 +225,7 @@ impl Ctx {
                 .map(|_| Slot { started_ms: AtomicU64::new(0), case_no: AtomicU64::new(0), label: Mutex::new(String::new()) })
                 .collect(),
             capped: AtomicBool::new(false),
+            stopped_early: AtomicBool::new(false),
             done: AtomicBool::new(false),
             evaluations: AtomicU64::new(0),
         }
@@ -262,6 +286,11 @@ impl Ctx {
                             self.capped.store(true, Ordering::Relaxed);
                             break;
                         }
+                        // the verdict is decided: do not grind through the rest of the sweep
+                        if self.viol_count.load(Ordering::Relaxed) >= EARLY_STOP_VIOLATIONS && std::env::var("VERIF_DUMP_VIOLATIONS").is_err() {
+                            self.stopped_early.store(true, Ordering::Relaxed);
+                            break;
+                        }
                         let c = next.fetch_add(1, Ordering::Relaxed);
                         if c >= n_chunks {
                             break;
@@ -313,8 +342,14 @@ impl Ctx {
             *self.known_hits.lock().unwrap().entry(key).or_insert(0) += 1;
             return;
         }
+        for (k, set) in self.known_sets.iter().enumerate() {
+            if set.cases.contains(&key) {
+                self.known_set_hits[k].fetch_add(1, Ordering::Relaxed);
+                return;
+            }
+        }
         let n = self.viol_count.fetch_add(1, Ordering::Relaxed);
-        if n < 2000 {
+        if n < 2000 || std::env::var("VERIF_DUMP_VIOLATIONS").is_ok() {
             self.violations.lock().unwrap().push(Violation { desc, what, size });
         }
     }
@@ -380,7 +415,17 @@ impl Ctx {
                 println!("NOTE: listed finding not reproduced in this run (not enumerated or no longer failing): property={} case={}", self.prop, key);
             }
         }
+        let mut set_hits_total = 0u64;
+        for (k, set) in self.known_sets.iter().enumerate() {
+            let hits = self.known_set_hits[k].load(Ordering::Relaxed);
+            set_hits_total += hits;
+            println!(
+                "KNOWN-FINDING: property={} {} ({} of the {} cases listed in {} reproduced in this run)",
+                self.prop, set.what, hits, set.cases.len(), set.file
+            );
+        }
         let cov = coverage.as_object_mut().expect("coverage object");
+        cov.insert("known_set_cases_reproduced".into(), json!(set_hits_total));
         if !cov.contains_key("samples") {
             let mut s = self.samples();
             s.truncate(8);
@@ -388,7 +433,9 @@ impl Ctx {
         }
         cov.insert("counters".into(), self.stats_json());
         cov.insert("capped_by_wall_limit".into(), json!(self.was_capped()));
-        if self.was_capped() {
+        let early = self.stopped_early.load(Ordering::Relaxed);
+        cov.insert("stopped_early_after_violations".into(), json!(early));
+        if self.was_capped() || early {
             cov.insert("exhaustive".into(), json!(false));
         }
         cov.insert("known_findings_reproduced".into(), json!(hits.len()));
@@ -429,6 +476,8 @@ impl Ctx {
         if let Ok(path) = std::env::var("VERIF_DUMP_VIOLATIONS") {
             let lines: Vec<String> = viols.iter().map(|v| serde_json::to_string(&json!({"property": self.prop, "case": v.desc, "what": v.what})).unwrap()).collect();
             let _ = std::fs::write(&path, lines.join("\n") + "\n");
+            let cases: Vec<String> = viols.iter().map(|v| canonical(&v.desc)).collect();
+            let _ = std::fs::write(format!("{}.cases", path), cases.join("\n") + "\n");
         }
         for v in viols.iter().take(20) {
             let key = canonical(&v.desc);
@@ -531,13 +580,14 @@ impl<'a> Worker<'a> {
     }
 }
 
-fn load_known(verif_dir: &str, prop: &str) -> Vec<Known> {
+fn load_known(verif_dir: &str, prop: &str) -> (Vec<Known>, Vec<KnownSet>) {
     let path = format!("{}/known_findings.jsonl", verif_dir);
     let text = match std::fs::read_to_string(&path) {
         Ok(t) => t,
-        Err(_) => return Vec::new(),
+        Err(_) => return (Vec::new(), Vec::new()),
     };
     let mut out = Vec::new();
+    let mut sets = Vec::new();
     for (ln, line) in text.lines().enumerate() {
         let line = line.trim();
         if line.is_empty() || line.starts_with('#') || line.starts_with("fixed:") {
@@ -551,12 +601,29 @@ fn load_known(verif_dir: &str, prop: &str) -> Vec<Known> {
             }
         };
         if v["property"] == prop && v["status"] == "known" {
-            out.push(Known { case: v["case"].clone(), what: v["what"].as_str().unwrap_or("").to_string() });
+            let what = v["what"].as_str().unwrap_or("").to_string();
+            if let Some(file) = v["case_file"].as_str() {
+                let fp = format!("{}/{}", verif_dir, file);
+                let body = std::fs::read_to_string(&fp).unwrap_or_else(|e| {
+                    eprintln!("ENGINE-ERROR cannot read {}: {}", fp, e);
+                    std::process::exit(2)
+                });
+                let cases: HashSet<String> = body
+                    .lines()
+                    .filter(|l| !l.trim().is_empty())
+                    .map(|l| canonical(&serde_json::from_str::<Value>(l).unwrap_or_else(|e| {
+                        eprintln!("ENGINE-ERROR {}: {}", fp, e);
+                        std::process::exit(2)
+                    })))
+                    .collect();
+                sets.push(KnownSet { file: file.to_string(), what, cases });
+            } else {
+                out.push(Known { case: v["case"].clone(), what });
+            }
         }
     }
-    out
+    (out, sets)
 }
-
 
 /// This process is the plain-profile child of a check (C05, C11 run under both build profiles).
 pub fn is_child() -> bool {
@@ -566,7 +633,6 @@ pub fn is_child() -> bool {
 pub fn child_evidence_path(verif_dir: &str, prop: &str) -> String {
     format!("{}/evidence/.{}.plain-child.json", verif_dir, prop)
 }
-
 /// Run the same check in the plain release build (no overflow checks, no debug assertions) as a
 /// child process. Returns (its evidence, its exit code). Its VIOLATION lines go to our stdout.
 pub fn run_plain_child(ctx: &Ctx) -> (Value, i32) {
